@@ -408,6 +408,7 @@ func (e *Explorer) RunPath(fn *ssa.Function, harness string, prefix []int64) (re
 	e.em = &emitter{defined: map[int]bool{}, ufs: map[string]bool{}, out: e.solver.send}
 	e.solver.send("(push 1)")
 	e.startInstrs = InstrCount
+	poolItems = map[*value][]value{}
 	pathStart = time.Now()
 	callDepth = 0
 	e.I.restoreGlobals()
